@@ -177,6 +177,13 @@ def _inputs():
                        ("makerandCIJ_dir", (6, 10), (8, 20)), ("makerandCIJ_und", (6, 7), (8, 12)),
                        ("makeringlatticeCIJ", (8, 20), (7, 17)), ("maketoeplitzCIJ", (8, 16, 1.5), (7, 15, 2.0))]:
         add(nm, ref, a1, a2, group="generator")
+    # the legal extremes with the SAME size parameters as the first input: the empty and the full
+    # network (state that a call leaves behind for the next call of the same size shows between them)
+    for nm, extra in [("maketoeplitzCIJ", [(8, 0, 1.5), (8, 40, 1.5)]), ("makerandCIJ_dir", [(6, 0), (6, 30)]),
+                      ("makerandCIJ_und", [(6, 0), (6, 15)]), ("makeringlatticeCIJ", [(8, 0), (8, 56)])]:
+        for a in extra:
+            t[nm]["args"].append(a)
+            t[nm]["kwargs"].append({})
     ci8, ci9 = np.array([1, 1, 2, 2, 3, 3, 1, 2]), np.array([1, 2, 3, 1, 2, 3, 1, 2, 3])
     add("community_louvain", mod, (Uw10,), (Fu8,), {}, dict(B="negative_asym", ci=ci8), group="modularity")
     add("modularity_louvain_und", mod, (Uw10,), (U9,), {}, dict(gamma=0.8, hierarchy=True), group="modularity")
@@ -481,6 +488,17 @@ def build_jobs(ctx, short, longs, len4=()):
                     j["amap"]["1"] = [b, (b + 1) % nbank]
                     j["seeds"] = [rng.randrange(2 ** 31), rng.randrange(1000)]
                     jobs.append(j)
+            # ... and the "sandwich" on every ordered pair of bank inputs: the same seeded call before
+            # and after a call on ANOTHER input (state a call leaves behind for the next one)
+            if nbank <= 6:
+                sandwich = [["call", 1, 1, "int", 1], ["call", 1, 2, "int", 2], ["call", 1, 1, "int", 1]]
+                for a in range(nbank):
+                    for b in range(nbank):
+                        if a != b:
+                            j = make_job(rng, name, k, sandwich)
+                            j["amap"]["1"] = [a, b]
+                            j["seeds"] = [rng.randrange(2 ** 31), rng.randrange(1000)]
+                            jobs.append(j)
         jobs.append(make_job(rng, name, k, REC_PROGRAM, kind="rec"))
     return jobs
 
